@@ -66,11 +66,16 @@ func (f *vObjFile) SourceLine(addr uint64) ([]plugin.Frame, error) {
 	f.n++
 	tag := f.tag + ".line" + strconv.Itoa(f.n)
 	names := []string{"", "fa", "fb"}
-	switch vChoice(tag, 4) {
+	switch vChoice(tag, 6) {
 	case 0:
 		return nil, errVerif
 	case 1:
 		return nil, nil
+	case 4:
+		// addr2line's "??" at "??:0": a frame with no function, file or line
+		return []plugin.Frame{{}}, nil
+	case 5:
+		return []plugin.Frame{{Func: "fa", File: "a.c", Line: vInt(tag + ".ln")}, {}}, nil
 	case 2:
 		return []plugin.Frame{{Func: names[vChoice(tag+".fn", 3)], File: "a.c", Line: vInt(tag + ".ln")}}, nil
 	}
